@@ -339,4 +339,59 @@ def readServerCert (ctx : ClientCtx) (raw : Bytes) (dec : Decoder) : Step :=
     else ⟨[], .abort .unexpectedMessage .notCertificate, 0⟩
   | _ => ⟨[], .abort .unexpectedMessage .malformed, 0⟩
 
+/-! ## successive calls: every result is a fresh value
+
+`decompressCert` `make`s the buffer the certificate message is decompressed into, and
+`certificateMsgTLS13.unmarshal` keeps sub-slices of it: what a connection holds afterwards (and
+`ConnectionState().PeerCertificates[i].Raw`) *is* that buffer. `Heap` is the list of all buffers
+allocated by the calls of a process so far, in order; a call appends one (a fresh cell) and
+touches no other. -/
+
+abbrev Heap := List Bytes
+
+structure Call where
+  adv : List Nat
+  msg : CompMsg
+  dec : Decoder
+
+/-- content of the buffer a call leaves behind: the rebuilt Certificate message when it succeeds
+(after an abort nobody holds the buffer; its content is irrelevant and left as zeros here). -/
+def bufferOf (r : Result) : Bytes :=
+  match r.outcome with
+  | .ok body _ => certRaw body
+  | .abort _ _ => List.replicate r.alloc 0
+
+/-- one call in a process whose earlier calls allocated `h`: the heap afterwards, the result, and
+the index of the buffer the result points into (`none` when nothing was allocated). -/
+def callDecompress (h : Heap) (c : Call) : Heap × Result × Option Nat :=
+  let r := decompressDecision c.adv c.msg c.dec
+  if r.alloc = 0 then (h, r, none) else (h ++ [bufferOf r], r, some h.length)
+
+/-- any number of calls, one after the other (any connections, any algorithms). -/
+def runCalls : Heap → List Call → Heap × List (Result × Option Nat)
+  | h, [] => (h, [])
+  | h, c :: cs =>
+    let x := callDecompress h c
+    let y := runCalls x.1 cs
+    (y.1, (x.2.1, x.2.2) :: y.2)
+
+/-! ## successive presets: what the client advertised is what the last hello carries
+
+`ApplyPreset` replaces `uconn.Extensions`; `uconn.certCompressionAlgs` is written by the
+compress_certificate extension of the spec when the hello is built (`writeToUConn`) and is **not**
+cleared by a spec without that extension — the stale list survives. Removing the extension from
+`uconn.Extensions` has the same effect as a preset without it. -/
+
+structure Preset where
+  /-- the algorithm list of the spec's compress_certificate extension, if it has one. -/
+  compress : Option (List Nat)
+
+def applyPreset (c : ClientCtx) (p : Preset) : ClientCtx :=
+  match p.compress with
+  | some a => ⟨true, a⟩
+  | none => ⟨false, c.adv⟩
+
+/-- the client state after a sequence of presets (hello built after each) on a fresh `UConn`. -/
+def afterPresets (ps : List Preset) : ClientCtx := ps.foldl applyPreset ⟨false, []⟩
+
 end CertComp
